@@ -513,14 +513,33 @@ pub fn pattern_byte(i: usize) -> u8 {
     b'a' + (i % 23) as u8
 }
 
-/// `gen N [T]`: writes N pattern bytes followed by T newlines to stdout.
+/// The generator payload: N pattern bytes (a newline at every E-th position if
+/// E > 0) followed by T newlines.
+pub fn payload(n: usize, t: usize, e: usize) -> Vec<u8> {
+    let mut data: Vec<u8> = (0..n)
+        .map(|i| if e > 0 && i % e == e - 1 { b'\n' } else { pattern_byte(i) })
+        .collect();
+    data.extend(std::iter::repeat_n(b'\n', t));
+    data
+}
+
+pub fn fnv(data: &[u8]) -> u64 {
+    let mut h: u64 = 0xcbf29ce484222325;
+    for b in data {
+        h ^= *b as u64;
+        h = h.wrapping_mul(0x100000001b3);
+    }
+    h
+}
+
+/// `gen N [T [E]]`: writes the payload to stdout.
 fn gen_main(env: &mut Env<VS>, args: Vec<Field>) -> BuiltinFuture<'_> {
     use yash_env::system::concurrency::WriteAll;
     Box::pin(async move {
         let n: usize = args.first().and_then(|a| a.value.parse().ok()).unwrap_or(0);
         let t: usize = args.get(1).and_then(|a| a.value.parse().ok()).unwrap_or(0);
-        let mut data: Vec<u8> = (0..n).map(pattern_byte).collect();
-        data.extend(std::iter::repeat_n(b'\n', t));
+        let e: usize = args.get(2).and_then(|a| a.value.parse().ok()).unwrap_or(0);
+        let data = payload(n, t, e);
         match env.system.write_all(Fd::STDOUT, &data).await {
             Ok(_) => ExitStatus::SUCCESS.into(),
             Err(_) => ExitStatus::FAILURE.into(),
@@ -557,6 +576,37 @@ fn sink_main(env: &mut Env<VS>, args: Vec<Field>) -> BuiltinFuture<'_> {
             }
         }
         trace(pid_of(env), format!("sink n={total} nl={nl} ok={ok}"));
+        ExitStatus::SUCCESS.into()
+    })
+}
+
+/// `hsink [bufsize]`: reads stdin to EOF; traces length and hash of what it read.
+fn hsink_main(env: &mut Env<VS>, args: Vec<Field>) -> BuiltinFuture<'_> {
+    use yash_env::system::Read;
+    Box::pin(async move {
+        let bs: usize = args.first().and_then(|a| a.value.parse().ok()).unwrap_or(700);
+        let mut buf = vec![0u8; bs.max(1)];
+        let mut all = vec![];
+        loop {
+            match env.system.read(Fd::STDIN, &mut buf).await {
+                Ok(0) => break,
+                Ok(n) => all.extend_from_slice(&buf[..n]),
+                Err(e) => {
+                    trace(pid_of(env), format!("hsink error {e:?}"));
+                    return ExitStatus::FAILURE.into();
+                }
+            }
+        }
+        trace(pid_of(env), format!("hsink n={} h={:x}", all.len(), fnv(&all)));
+        ExitStatus::SUCCESS.into()
+    })
+}
+
+/// `chk WORD`: traces length and hash of its first argument.
+fn chk_main(env: &mut Env<VS>, args: Vec<Field>) -> BuiltinFuture<'_> {
+    Box::pin(async move {
+        let v = args.first().map(|f| f.value.clone()).unwrap_or_default();
+        trace(pid_of(env), format!("chk n={} h={:x} argc={}", v.len(), fnv(v.as_bytes()), args.len()));
         ExitStatus::SUCCESS.into()
     })
 }
@@ -638,6 +688,8 @@ pub fn register_probes(env: &mut Env<VS>) {
     env.builtins.insert("gen", bi(gen_main));
     env.builtins.insert("sink", bi(sink_main));
     env.builtins.insert("cat", bi(cat_main));
+    env.builtins.insert("hsink", bi(hsink_main));
+    env.builtins.insert("chk", bi(chk_main));
     env.builtins.insert("tick", bi(tick_main));
     env.builtins.insert("tock", bi(tock_main));
     env.builtins.insert("pos", bi(pos_main));
